@@ -5,6 +5,7 @@ smaller depth (`dominated`); and every enumerated field is a candidate of the ru
 The hypothesis `NoDupEmbed` is used exactly once, in `occ`.
 -/
 import JsonV.Lemmas.FieldsInvRun
+import JsonV.Lemmas.FieldsFuel
 
 set_option linter.unusedSimpArgs false
 
@@ -20,13 +21,18 @@ structure Final (g : Graph) (root : StructId) (P : List QE) (all : List RField) 
   reach : ∀ e ∈ P, Reach g root e.index e.sid
   memb : ∀ e ∈ P, ∀ j o, Member g e.sid j o → ∃ f ∈ all, f.index = e.index ++ [j] ∧ f.opts = o
   allS : ∀ f ∈ all, ∃ e ∈ P, ∃ j, Member g e.sid j f.opts ∧ f.index = e.index ++ [j]
+  good : ∀ e ∈ P, ∀ j d, FieldAt g e.sid j d → GoodDecl d
+  allND : (all.map (·.index)).Nodup
+  allSorted : all.Pairwise (fun a b => a.depth ≤ b.depth)
 
-theorem final_of_search {g : Graph} {root : StructId} (hg : ReachGood g root) (hq : (search g root).queue = []) :
+theorem final_of_search {g : Graph} {root : StructId} (herr : (search g root).err = none) :
     ∃ P, Final g root P (search g root).all := by
-  obtain ⟨k, P, hroot, h⟩ := Inv.search (g := g) (root := root) hg
-  rw [hq] at h
+  obtain ⟨k, P, hroot, h3⟩ := Inv3.search (g := g) (root := root) herr
+  have hq := search_queue_nil g root
+  rw [hq] at h3
+  have h := h3.a
   have hh : hist P [] { (search g root) with queue := [] } = P := by simp [hist]
-  refine ⟨P, hroot, ?_, ?_, ?_, ?_, ?_, ?_⟩
+  refine ⟨P, hroot, ?_, ?_, ?_, ?_, ?_, ?_, ?_, h3.b.allND, h3.b.allSorted⟩
   · intro e he hv j t hk
     have := h.kids e j t (Or.inl he) hv hk
     rwa [hh] at this
@@ -41,6 +47,8 @@ theorem final_of_search {g : Graph} {root : StructId} (hg : ReachGood g root) (h
     rcases hd with hd | ⟨i, hc, _⟩
     · exact ⟨e, hd, j, hm, hi⟩
     · cases hc
+  · intro e he j d hf
+    exact h3.b.good e j d (Or.inl he) hf
 
 theorem pairwise_mem {α} {R : α → α → Prop} : ∀ {l : List α}, l.Pairwise R → ∀ {a b}, a ∈ l → b ∈ l → a = b ∨ R a b ∨ R b a
   | [], _, _, _, ha, _ => by cases ha
@@ -69,28 +77,26 @@ theorem Final.visiting (h : Final g root P all) {e : QE} (he : e ∈ P) :
   | true => exact ⟨e, he, rfl, hv, Nat.le_refl _⟩
   | false => exact h.firstW e he hv
 
-theorem good_kid (hg : ReachGood g root) {p : List Nat} {s1 : StructId} {i : Nat} {d : FieldDecl} {t : StructId}
-    (hr : Reach g root p s1) (hf : FieldAt g s1 i d) (hk : kindOf d = .embedStruct t) : Kid g s1 i t := by
-  have hgood := hg p s1 hr i d hf
+theorem good_kid {s1 : StructId} {i : Nat} {d : FieldDecl} {t : StructId}
+    (hgood : GoodDecl d) (hf : FieldAt g s1 i d) (hk : kindOf d = .embedStruct t) : Kid g s1 i t := by
   unfold GoodDecl at hgood
   rw [hk] at hgood
   cases ha : actOf d <;> simp [ha, Action.Matches] at hgood
   subst hgood
   exact ⟨d, hf, ha⟩
 
-theorem good_member (hg : ReachGood g root) {p : List Nat} {s1 : StructId} {i : Nat} {d : FieldDecl} {o : FieldOpts}
-    (hr : Reach g root p s1) (hf : FieldAt g s1 i d) (hk : kindOf d = .member o) : Member g s1 i o := by
-  have hgood := hg p s1 hr i d hf
+theorem good_member {s1 : StructId} {i : Nat} {d : FieldDecl} {o : FieldOpts}
+    (hgood : GoodDecl d) (hf : FieldAt g s1 i d) (hk : kindOf d = .member o) : Member g s1 i o := by
   unfold GoodDecl at hgood
   rw [hk] at hgood
   cases ha : actOf d <;> simp [ha, Action.Matches] at hgood
   subst hgood
   exact ⟨d, hf, ha⟩
 
-theorem member_kind (hg : ReachGood g root) {p : List Nat} {s1 : StructId} {i : Nat} {o : FieldOpts}
-    (hr : Reach g root p s1) (hm : Member g s1 i o) : ∃ d, FieldAt g s1 i d ∧ kindOf d = .member o := by
+theorem member_kind {s1 : StructId} {i : Nat} {o : FieldOpts}
+    (hgood : ∀ d, FieldAt g s1 i d → GoodDecl d) (hm : Member g s1 i o) : ∃ d, FieldAt g s1 i d ∧ kindOf d = .member o := by
   obtain ⟨d, hf, ha⟩ := hm
-  have hgood := hg p s1 hr i d hf
+  have hgood := hgood d hf
   unfold GoodDecl at hgood
   rw [ha] at hgood
   cases hk : kindOf d <;> simp [hk, Action.Matches] at hgood
@@ -105,7 +111,7 @@ theorem reach_inv {p : List Nat} {s : StructId} (h : Reach g root p s) :
 
 /-- Every reachable struct occurrence has a processed occurrence of the same type at the same path, or at a
 strictly smaller depth.  This is where `NoDupEmbed` is needed (known finding `dup-embed-kept`). -/
-theorem Final.occ (hg : ReachGood g root) (hnd : NoDupEmbed g root) (h : Final g root P all) :
+theorem Final.occ (hnd : NoDupEmbed g root) (h : Final g root P all) :
     ∀ (n : Nat) (p : List Nat) (s0 : StructId), p.length = n → Reach g root p s0 →
       ∃ e ∈ P, e.sid = s0 ∧ (e.index = p ∨ e.index.length < p.length) := by
   intro n
@@ -115,8 +121,8 @@ theorem Final.occ (hg : ReachGood g root) (hnd : NoDupEmbed g root) (h : Final g
     rcases reach_inv hr with ⟨rfl, rfl⟩ | ⟨q, s1, i, d, rfl, hrq, hf, hk⟩
     · exact ⟨_, h.rootP, rfl, Or.inl rfl⟩
     · have hqn : q.length < n := by rw [← hn]; simp
-      have hkid : Kid g s1 i s0 := good_kid hg hrq hf hk
       obtain ⟨e, heP, hes, hei⟩ := ih q.length hqn q s1 rfl hrq
+      have hkid : Kid g s1 i s0 := good_kid (h.good e heP i d (hes ▸ hf)) hf hk
       -- a visiting entry at path `q'` queues the child at `q' ++ [i]`
       have child : ∀ e0 ∈ P, e0.sid = s1 → e0.visit = true → (e0.index = q ∨ e0.index.length < q.length) →
           ∃ e' ∈ P, e'.sid = s0 ∧ (e'.index = q ++ [i] ∨ e'.index.length < (q ++ [i]).length) := by
@@ -160,12 +166,12 @@ theorem Final.occ (hg : ReachGood g root) (hnd : NoDupEmbed g root) (h : Final g
 
 /-- Every candidate of the rule is enumerated, or dominated by an enumerated field with the same options
 at a strictly smaller depth. -/
-theorem Final.dominated (hg : ReachGood g root) (hnd : NoDupEmbed g root) (h : Final g root P all)
+theorem Final.dominated (hnd : NoDupEmbed g root) (h : Final g root P all)
     (c : Cand) (hc : IsCand g root c) :
     ∃ f ∈ all, f.opts = c.opts ∧ (f.index = c.index ∨ f.index.length < c.index.length) := by
   obtain ⟨p, s1, i, d, hr, hf, hk, hci⟩ := hc
-  have hm : Member g s1 i c.opts := good_member hg hr hf hk
-  obtain ⟨e, heP, hes, hei⟩ := h.occ hg hnd p.length p s1 rfl hr
+  obtain ⟨e, heP, hes, hei⟩ := h.occ hnd p.length p s1 rfl hr
+  have hm : Member g s1 i c.opts := good_member (h.good e heP i d (hes ▸ hf)) hf hk
   obtain ⟨f, hfa, hfi, hfo⟩ := h.memb e heP i c.opts (hes ▸ hm)
   refine ⟨f, hfa, hfo, ?_⟩
   rcases hei with hei | hei
@@ -173,10 +179,10 @@ theorem Final.dominated (hg : ReachGood g root) (hnd : NoDupEmbed g root) (h : F
   · right; rw [hfi, hci]; simp; omega
 
 /-- Every enumerated field is a candidate of the rule, with its index path. -/
-theorem Final.enumerated_sound (hg : ReachGood g root) (h : Final g root P all) (f : RField) (hf : f ∈ all) :
+theorem Final.enumerated_sound (h : Final g root P all) (f : RField) (hf : f ∈ all) :
     IsCand g root ⟨f.index, f.opts⟩ := by
   obtain ⟨e, heP, j, hm, hi⟩ := h.allS f hf
-  obtain ⟨d, hfd, hk⟩ := member_kind hg (h.reach e heP) hm
+  obtain ⟨d, hfd, hk⟩ := member_kind (fun d hd => h.good e heP j d hd) hm
   exact ⟨e.index, e.sid, j, d, h.reach e heP, hfd, hk, hi⟩
 
 end JsonV.Lemmas.Fields
